@@ -515,6 +515,9 @@ class Interp:
             x, y = (a, b) if isinstance(a, VOpaque) else (b, a)
             if isinstance(y, (VSeq, VInt, VBool, VRef)):
                 return x.t == self.ctx.obj_term(self, y, node)
+        if (isinstance(a, VOpaque) and isinstance(b, VClass)) or (isinstance(b, VOpaque) and isinstance(a, VClass)):
+            x, c = (a, b) if isinstance(a, VOpaque) else (b, a)
+            return x.t == self.ctx.class_const(c.info)
         if isinstance(a, VType) and isinstance(b, VType):
             return z3.BoolVal(a.name == b.name)
         if isinstance(a, VClass) and isinstance(b, VClass):
@@ -563,6 +566,9 @@ class Interp:
             a, b = self.unwrap(a, node), self.unwrap(b, node)
         if isinstance(a, VNone) or isinstance(b, VNone):
             return z3.BoolVal(isinstance(a, VNone) and isinstance(b, VNone))
+        if (isinstance(a, VOpaque) and isinstance(b, VClass)) or (isinstance(b, VOpaque) and isinstance(a, VClass)):
+            x, c = (a, b) if isinstance(a, VOpaque) else (b, a)
+            return x.t == self.ctx.class_const(c.info)
         if isinstance(a, VType) and isinstance(b, VType):
             return z3.BoolVal(a.name == b.name)
         if isinstance(a, VType) or isinstance(b, VType):
